@@ -6,7 +6,7 @@
 (* image of the proposal.  "rand": random and single-word-adversarial streams;  *)
 (* the squared norm (summed by the harness in the sampler's float type) must be *)
 (* 1 within 8 ordinals (circle, sphere) resp. <= 1 (disc, ball), never NaN.     *)
-EXTENDS UnitGeom, Ord, TLC, Json, IOUtils
+EXTENDS UnitGeom, Ord, Limb14, TLC, Json, IOUtils
 
 Rec == ndJsonDeserialize(IOEnv.TRACE)
 VARIABLE l
@@ -50,7 +50,23 @@ FineRule == LET kd == Ev.kind v == Ev.k IN
              /\ Ev.acc = AcceptD(kd, v, 4096)
              /\ (Ev.acc /\ kd \in {"disc", "ball"}) => \A i \in 1..Len(v) : Ev.q[i] = v[i] * 1024)      \* x * 2^16, x = k/64
 
-Rule == CASE Ev.op \in {"lat", "lat2"} -> LatRule [] Ev.op = "fine" -> FineRule [] Ev.op = "rand" -> RandRule /\ Ev.words % Dim(Ev.kind) = 0 [] OTHER -> FALSE
+\* "edge": the acceptance region at the full resolution of the proposal lattice (x = a / d, d = 2^22 for f32, 2^51 for f64).
+\* For a column (all but the last coordinate fixed, |x| <= 0.98) the harness reports the last accepted index L >= 0 of the last
+\* coordinate; the documented region says  S + L^2 <= d^2 < S + (L + 1)^2  (S = sum of the squared fixed coordinates; "<" for the
+\* open regions of circle and sphere), here with two lattice steps of slack for the rounding of the sum of squares in the
+\* sampler's float type (0.125 / y steps at height y >= 0.2), in exact base-2^14 arithmetic.
+RECURSIVE SqSum(_)
+SqSum(fs) == IF Len(fs) = 0 THEN <<0>> ELSE Add14(Mul(Head(fs), Head(fs)), SqSum(Tail(fs)))
+EdgeRule == /\ Ev.res = "Ok" /\ ~Ev.zero_rejected
+            /\ LET S == SqSum(Ev.fixed)  DD == Mul(Ev.d, Ev.d)
+                    inner == IF Cmp(Ev.last, <<2>>) >= 0 THEN SubFrom(Ev.last, <<2>>, 1, 0) ELSE <<0>>
+                    outer == Add14(Ev.last, <<3>>)
+                IN  /\ Cmp(Add14(S, Mul(inner, inner)), DD) <= 0          \* two steps inside the reported edge: in the region
+                    /\ Cmp(Add14(S, Mul(outer, outer)), DD) > 0           \* three steps beyond it: outside
+\* "img": the returned point is the documented image of the accepted proposal (8 ordinals per component)
+ImgRule == Ev.res = "Ok" /\ Ev.finite /\ Len(Ev.got) = Len(Ev.ref) /\ \A i \in 1..Len(Ev.got) : Within(Ev.got[i], Ev.ref[i], 8)
+
+Rule == CASE Ev.op \in {"lat", "lat2"} -> LatRule [] Ev.op = "edge" -> EdgeRule [] Ev.op = "img" -> ImgRule [] Ev.op = "fine" -> FineRule [] Ev.op = "rand" -> RandRule /\ Ev.words % Dim(Ev.kind) = 0 [] OTHER -> FALSE
 
 TInit == l = 1 /\ kind = "trace" /\ pc = "trace" /\ k = <<>> /\ words = 0 /\ iters = 0
 TNext == /\ l <= Len(Rec) /\ l' = l + 1 /\ UNCHANGED vars
